@@ -853,7 +853,7 @@ Qed.
 
 Lemma c_cmp other : conserves (OCmp other).
 Proof.
-  cs. destruct (spec_cmp val_cmp l (abs other)) as [b evs] eqn:E. sret H. cfin.
+  cs. destruct (spec_cmp val_ord l (abs other)) as [b evs] eqn:E. sret H. cfin.
   apply spec_cmp_neutral in E as [E1 E2]. rewrite E1, E2. perm.
 Qed.
 
@@ -1003,7 +1003,7 @@ Qed.
 
 Lemma f_cmp other : fresh_ok (OCmp other).
 Proof.
-  fs. destruct (spec_cmp val_cmp l (abs other)) as [b evs] eqn:E. ffin H.
+  fs. destruct (spec_cmp val_ord l (abs other)) as [b evs] eqn:E. ffin H.
   apply spec_cmp_neutral in E as [_ E2]. rewrite E2. fresh_none.
 Qed.
 
